@@ -134,6 +134,15 @@ Qed.
 Lemma h_same_ext h c f h' c' : h_same h c f = Ok (h', c') -> hext h h'.
 Proof. unfold h_same. destruct (f (to_comp h c)); [|discriminate]. intros [= <- <-]. apply hext_refl. Qed.
 
+Lemma h_drop_empty_ext h0 c0 t b h1 c1 :
+  h_drop_empty h0 c0 t b = (h1, c1) -> hext h0 h1 /\ (hid c1 = hid c0 \/ zlen (outer h0) <= hid c1).
+Proof.
+  unfold h_drop_empty. destruct (((0 <? t) || (0 <? b)) && (shards_rows (deref h0 (hid c0)) =? 0)).
+  - destruct (alloc_outer h0 []) as [h2 id] eqn:E. intros [= <- <-]. destruct (alloc_outer_ext _ _ _ _ E) as (X & Y & Z).
+    split; [exact X|]. right. cbn [hid]. lia.
+  - intros [= <- <-]. split; [apply hext_refl|now left].
+Qed.
+
 (* pad_trim_top_bottom: the append in place goes to a list created by this very call *)
 Lemma h_pad_tb_ext h c t b h' c' : h_pad_trim_top_bottom h c t b = Ok (h', c') -> hext h h'.
 Proof.
@@ -145,9 +154,14 @@ Proof.
   { intros h1 c1. destruct ((t <? 0) || (b <? 0)).
     - apply h_trim_ext.
     - intros [= <- <-]. split; [apply hext_refl|now left]. }
-  destruct (if (t <? 0) || (b <? 0) then _ else _) as [[h1 c1]|e]; [|discriminate].
-  destruct (Ha h1 c1 eq_refl) as [X1 I1]. clear Ha.
-  set (cols := shards_cols (deref h1 (hid c1))).
+  destruct (if (t <? 0) || (b <? 0) then _ else _) as [[h0 c0]|e]; [|discriminate].
+  destruct (Ha h0 c0 eq_refl) as [X0 I0]. clear Ha.
+  set (cols := shards_cols (deref h0 (hid c0))).
+  destruct (h_drop_empty h0 c0 t b) as [h1 c1] eqn:Ed.
+  destruct (h_drop_empty_ext _ _ _ _ _ _ Ed) as [Xd Id].
+  assert (X1 : hext h h1) by (eapply hext_trans; eauto).
+  assert (I1 : hid c1 = hid c \/ zlen (outer h) <= hid c1).
+  { destruct Id as [Id|Id]; [rewrite Id; exact I0|]. right. destruct X0 as (L & _). lia. }
   assert (exists h2 c2, (if 0 <? t
                          then let '(h'0, id) := alloc_outer h1 ((t, IFresh (blank_cvs cols t)) :: shared (get_outer h1 (hid c1))) in
                               (h'0, HC id (translate_coords (hcoords c1) 0 t) false)
